@@ -118,7 +118,7 @@ def check_pair(desc):
         R = tested(st, order, field, vector)
         if A.shape != R.shape:
             _fail(f"shape/{fam}_{op}", f"{A.shape} vs {R.shape}")
-        errs.append(og.relerr(A, R))
+        errs.append(og.relerr(A, R, og.entry_floor(gt, fam, op)))
     sig = f"tested_potential/{fam}_{op}/{desc['test']['kind']}x{desc['trial']['kind']}"
     if vector and op == "E":
         if errs[-1] > 1e-6 and errs[-1] > 0.05 * errs[0]:
